@@ -12,14 +12,14 @@
    step taken from the hand model's side of the equation), side conditions are closed by case
    analysis on the scrutinised primitives ([crush]).  An edit that changes what is computed —
    or leaves the translator's subset — breaks this file.                                       *)
-From Coq Require Import String List Bool Arith Ascii ZArith.
+From Coq Require Import String List Bool Arith Ascii ZArith Lia.
 Import ListNotations.
 From GT Require Import ProtoStrModel ProtoTieLib.
 From GTgen Require Import ProtoGen.
 Local Open Scope string_scope.
 Local Open Scope list_scope.
 (* a source that means something else makes the case analysis below run long before it fails *)
-Set Default Timeout 300.
+Set Default Timeout 600.
 
 (* the struct the record ProtoPrims.Generate stands for has not changed *)
 Lemma tie_fields : gen_Generate_fields = Generate_fields.
@@ -27,17 +27,16 @@ Proof. reflexivity. Qed.
 
 (* helper functions and constants of the generated file are in the hint database [protogen]
    and unfolded on sight; the three anchors have lemmas of their own *)
+(* protoFileHasGoPackage: open, then the byte scanner (primitive scan_reader: the function
+   `func(io.ByteReader) (bool, error)` is not translated — ProtoLex.scan_go_package is its model,
+   proved equal to the specification, and tied to the code by the scan stream of the check) *)
 Lemma tie_protoFileHasGoPackage : forall W p,
   gen_protoFileHasGoPackage W p = s_has_go_package W p.
 Proof.
   intros W p. unfold gen_protoFileHasGoPackage, s_has_go_package. autounfold with protogen.
-  destruct (fs_open W p) as [lines e]. red_ctl.
+  destruct (fs_open W p) as [r e]. red_ctl.
   destruct (err_is_nil e) eqn:He; red_ctl; [|reflexivity].
-  first
-    [ erewrite (loop_range_find _ _ _ _ (str_contains go_package_marker)) by crush
-    | erewrite (loop_range_or _ _ _ (str_contains go_package_marker)) by crush
-    | erewrite (loop_while_or _ _ _ (str_contains go_package_marker)) by crush ].
-  destruct (existsb (str_contains go_package_marker) lines); reflexivity.
+  destruct (scan_reader r) as [b e2]. reflexivity.
 Qed.
 
 (* findProtos by filepath.WalkDir with a callback that appends *)
@@ -91,10 +90,26 @@ Ltac use_ties :=
   | |- context [gen_protoFileHasGoPackage ?W ?p] => rewrite (tie_protoFileHasGoPackage W p)
   end.
 
-(* rewrite the first loop of the goal with the step the hand side collects over *)
+(* rewrite a loop of the goal with the step the hand side collects over *)
 Ltac loop_to_collect :=
   match goal with
   | |- context [s_collect ?step ?xs] => erewrite (loop_range_collect _ _ _ step _ xs)
+  end.
+(* the same for `for i, x := range …` from the second entry on *)
+Ltac loop_enum_to_collect :=
+  match goal with
+  | |- context [s_collect ?step ?xs] => erewrite (loop_range_enum_collect _ _ step _ _ xs)
+  end.
+
+(* `for i, x := range InputDir :: Include` with the first entry treated differently: the step of
+   the first entry is read off the hand side (s_include_core … "" false) *)
+Ltac loop_enum0_to_collect :=
+  match goal with
+  | |- context [s_include_core ?W ?g ?x0 "" false] =>
+      match goal with
+      | |- context [s_collect ?step ?xs] =>
+          erewrite (loop_range_enum0_collect _ _ (fun x => s_include_core W g x "" false) step _ x0 xs)
+      end
   end.
 
 (* an equation between generated code and hand model: case analysis on what both scrutinise
@@ -103,18 +118,27 @@ Ltac loop_to_collect :=
    determines how the body returns an error) and for the continuation *)
 Ltac tie_go :=
   intros; repeat match goal with u : unit |- _ => destruct u end;
-  unfold_hand; autounfold with protogen; prim_rewrites;
-  repeat first [ progress use_ties | progress unfold_hand | progress red_loops | split_atom ];
+  unfold_hand; autounfold with protogen; prim_rewrites; index_facts;
+  repeat first [ progress use_ties | progress unfold_hand | progress red_loops | progress index_facts
+               | split_atom ];
   first [ solve [ close_goal ]
-        | loop_to_collect; revgoals; [ tie_go | tie_go ] ].
+        | loop_to_collect; revgoals; [ tie_ob | tie_go ]
+        | loop_enum_to_collect; revgoals; [ tie_ob | lia | tie_go ] ]
+with tie_ob :=
+  (* a loop body against a step of the hand model: the step is unfolded first *)
+  intros; unfold s_include_args, s_include_core; tie_go.
 
 Lemma tie_Run : forall W g, gen_Run W g = s_run W g.
 Proof.
   intros W [input protoc rec vt grpc include].
   unfold gen_Run. unfold_hand. autounfold with protogen. red_ctl.
-  (* the list of include entries stays abstract: loops over it are not unrolled *)
-  generalize (input :: include). intros entries.
-  destruct vt, grpc; tie_go.
+  (* the flags first: the evars of the loop lemmas must not depend on variables that are
+     case-split later *)
+  destruct vt, grpc; red_ctl;
+  (* the loop over InputDir :: Include, if it is one loop with an index *)
+  try (loop_enum0_to_collect; revgoals; [ tie_ob | tie_ob | ]);
+  (* otherwise the first entry is handled by code of its own: s_include_core is unfolded *)
+  first [ tie_go | tie_ob ].
 Qed.
 
 Definition TIE_C20_OK := (tie_fields, tie_protoFileHasGoPackage, tie_findProtos, tie_Run).
